@@ -412,6 +412,10 @@ def show_atom(a: Atom) -> str:
         return f"{show(a[1])}.{a[2]}"
     if k == "item":
         return f"{show(a[1])}[{a[2]}]"
+    if k == "arr":
+        return f"{a[1]}"
+    if k == "ptr":
+        return f"({a[1]}*){show(a[2])}"
     if k == "join":
         return f"{show(a[1])}.join({show(a[2])})"
     if k == "slice":
